@@ -39,5 +39,13 @@ def run(res, replay=None):
     # structural tie of phasegen/coalescent_models.py (the block-counting rates feed every identity between the two representations)
     import translate_step; (res.proof is not None) and translate_step.run(res.proof, pid=res.pid, tie='coalescent_models')
     orc.run_oracle(res, 'identities', [{'spec': s, 'second_order_reads': ['cov', 'corr_first', 'touch'][i % 3]} for i, s in enumerate(specs)])
+    if not replay:
+        # designed: the SAME configuration under the two model families one after the other in ONE process (block-counting states are
+        # numbered differently under Kingman and under the multiple-merger models: nothing indexed by state may be shared between them)
+        base = {'n_items': [['a', 5]], 'pop_sizes': {'a': {'0.0': 1.0, '1.0': 2.0}}, 'end_time': 4.0}
+        for first, second in (({'kind': 'kingman'}, {'kind': 'beta', 'alpha': 1.5, 'scale_time': False}),
+                              ({'kind': 'dirac', 'psi': 0.5, 'c': 1.0, 'scale_time': False}, {'kind': 'kingman'})):
+            orc.run_oracle(res, 'identities', [{'spec': dict(base, model=first), 'second_order_reads': 'cov'},
+                                               {'spec': dict(base, model=second), 'second_order_reads': 'cov'}], chunk=2)
     space.run_stream(res, 'C11', [s_ for s_ in specs if not s_.get('designed')][: (5 if res.tier == 'quick' else 30)])
     res.extra['input_distribution'] = {'n': sorted(gen.effective_n(s) for s in specs)}
